@@ -27,6 +27,11 @@ Theorem C20_unit_type_distinct : forall i j nm, i < 32 -> j < 32 ->
 Proof. exact unit_type_injective. Qed.
 Print Assumptions C20_unit_type_distinct.
 
+(* ... distinct as values: the crate's own `==` on UnitType::for_id a, UnitType::for_id b (row 32a+b) holds exactly when a = b *)
+Theorem C20_unit_type_eq : forall a b, a < 32 -> b < 32 -> lookup (32 * a + b) impl_uteq = Some (Some (a =? b)).
+Proof. exact unit_type_eq. Qed.
+Print Assumptions C20_unit_type_eq.
+
 (* profile_idc -> Profile -> profile_idc, and the ProfileIdc wrapper *)
 Theorem C20_profile : forall b, b < 256 ->
   exists nm ci, lookup b impl_prof = Some (b, nm, ci, b).
